@@ -26,6 +26,18 @@ def _classify(op, a, b):
     known finding can only excuse a file whose differences are ALL known ones."""
     if op.startswith("c03 part"):
         return ("part-not-wellformed-xml", b)
+    if op.startswith("c03 model"):
+        # correspondence: the Lean MODEL of the reader above the cell level (Umya/Model/ReaderSheet.lean) against the
+        # workbook the library loaded, on the modelled components (sheet list, names, cells, merges, links).  The model
+        # follows the CODE, known findings included, so no known finding excuses a difference here.
+        va, vb = a.split(" ## ")[0], b.split(" ## ")[0]
+        if not (va.startswith("mview=") and vb.startswith("mview=")):
+            return ("model-reader-differs", f"{va[:200]} | {vb[:200]}")
+        va, vb = va[6:], vb[6:]
+        if " # " not in va or " # " not in vb:
+            return ("model-reader-differs:" + ("library-" + va if " # " not in va else "model-" + vb).split(" ")[0], f"{va[:200]} | {vb[:200]}")
+        cls, detail = _classify("c03 decode", "errs=0;;view=active=0;" + va, "errs=0;;view=active=0;" + vb)
+        return ("model-reader-differs:" + cls, detail)
     b0 = b.split(" ## ")[0]
     notes = b.split(" ## ", 1)[1] if " ## " in b else ""
     m = re.match(r"errs=(\d+);(.*?);view=(.*)$", b0, re.S)
@@ -122,7 +134,7 @@ def _classify(op, a, b):
 
 
 PROP = {
-    "thm": "Umya.Thm.C03",
+    "thm": ["Umya.Thm.C03", "Umya.Thm.C03Cell", "Umya.Thm.C03Sheet"],
     "harness": "c03",
     "level": "translation_validation",
     "stateful": True,
@@ -133,7 +145,7 @@ PROP = {
     "driver_timeout": 3000,
     "level_text": "Translation validation per file by an independent decoder executed in Lean, plus theorems for the cell-level reading rules. Every part of every "
                   "file (53 corpus files in the quick tier, all 55 in the thorough tier; 300 / 5000 packages emitted by a seed-driven xlsx grammar that writes the XML itself; "
-                  "9 hand-written boundary packages) is lexed by an XML 1.0 reader and decoded by an OPC/SpreadsheetML decoder written from the standards "
+                  "13 hand-written boundary packages) is lexed by an XML 1.0 reader and decoded by an OPC/SpreadsheetML decoder written from the standards "
                   "(Umya.Spec.Xml, Umya.Spec.Sml, Umya.Spec.SharedFormula, Umya.Spec.Double): cells with value / kind / formula incl. expanded shared formulas, numbers as "
                   "exact binary64 bit patterns, style facts through cellXfs (numFmt id / custom code, bold, fill pattern and foreground colour), columns, rows, hyperlinks "
                   "through the rels part, tables, defined names, sheet list. Its view must equal the view printed from the workbook the LIBRARY loaded (read_reader + public getters). "
@@ -143,24 +155,41 @@ PROP = {
                   "C03_cell (for EVERY cell element of the valid grammar `validCell` and every shared-string table the model of Cell::set_attributes does not panic and shows the value text, kind, "
                   "formula, shared-formula group, style index and reference of Spec.decodeCell, for every cell type: t absent / n, s, str, b with 1/0/true/false, e, inlineStr with plain t, rich runs and "
                   "phonetic runs; one lemma per type C03_cell_number / _shared_string / _str / _bool / _error / _inline_string, C03_string_item: the library's string item = the standard's, C03_cell_kind), "
-                  "C03_positions (for every list of rows and cells, r present or omitted in any mixture, the model of the position rule of fix 8281a0c puts every row and cell where the spec's rowNumbers / fillRefs do).",
+                  "C03_positions (for every list of rows and cells, r present or omitted in any mixture, the model of the position rule of fix 8281a0c puts every row and cell where the spec's rowNumbers / fillRefs do). "
+                  "Sheet and workbook level (Thm/C03Sheet.lean, model Umya/Model/ReaderSheet.lean): C03_sheet (for EVERY list of <row> elements with validSheetData - unbounded rows, cells, shared groups, r present or not, "
+                  "children anywhere relative to the master - and EVERY shared-formula translator T, the model of the reader's sheetData loop (Row / Cell / CellFormula::set_attributes with last_row_num, last_col_num and "
+                  "formula_shared_list) yields in document order exactly the (column, row, kind, value text, formula text, style index) of the decoder's cell list = rowNumbers + decodeCell + fillRefs + shared-formula expansion "
+                  "with T as the translator; C03_sheet_decoder: with the spec's translator no panic and the cells of Spec.decodeSheet (C03_sheet_is_decodeSheet); C03_sheet_code: the instance for the code's translator), "
+                  "C03_shared_formula_tokens (C03_shared_formula lifted from one reference to any token list of non-reference tokens and well-formed references, from C09_translate_partial), "
+                  "C03_sst (the shared-strings table the library builds holds at every index the decoder's rstText, <si/> / <t/> / runs / phonetic runs included; C03_sst_cell composes it with t=s cells), "
+                  "C03_rels + C03_hyperlinks (r:id -> first relationship with that Id -> Target, location, tooltip: link by link the decoder's Link, for any number of links; C03_hyperlinks_is_decodeSheet), "
+                  "C03_sheet_list (names, states, r:id and the relationship each sheet selects), C03_merges_partial, C03_defined_names_partial.",
     "level_note": "The file-level agreement is validated per file, NOT proved for all valid files: there is no Lean model of the whole reader. The model of the cell reader and of the position rule "
                   "(Umya/Model/Reader.lean: readCell, stringItem, sheetPositions) is tied to the code indirectly: the driver runs it next to the spec on every <c> and every <sheetData> of every file; "
                   "cells are reported as model-vs-spec-cells in the informational part of the reply, a POSITION difference on a file the spec accepts is put into the compared part (modelpos=) and fails the check "
                   "(class model-positions-differ-from-spec); the spec is compared with the implementation by the oracle, so on a passing file model, spec and implementation agree pairwise on the positions. "
+"The model of the reader ABOVE the cell level (Umya/Model/ReaderSheet.lean: readRows / readSheetData with codeTr, readSst, readRels, readHyperlinks, readMerges, readSheetList, readDefinedNames) is tied "
+                  "to the code directly: after `c03 decode` every case sends `c03 model`; the driver runs the model on the lexed parts (every sheet part of the package) and prints the modelled components of the view "
+                  "(sheet list, defined names, per sheet cells with value / kind / formula / style facts through the model's style index, merges, links); the harness prints the same components of the workbook the LIBRARY loaded; "
+                  "a difference is class model-reader-differs:* and no known finding excuses it (the model follows the code, deviations included). Packages whose parts use comments / CDATA, the tag forms of known finding "
+                  "C03-edge-start-end-tag-form or prefixed SpreadsheetML element names are answered `unmodelled` (2 of 365 cases in the quick tier: edge 3 and edge 4; 363 compared). "
                   "Trusted: the Lean decoder (spec, ~900 lines, executed, not "
                   "verified against the standards' text), the zip crate, the harness view function and generator, the classifier in this file. Below the abstraction (not compared): "
                   "empty string vs no value (C03_cell compares kinds through shownKind for the same reason), blank hyperlink-anchor cells, default-width columns, optional apostrophes around plain sheet names in defined names, order of tables.",
     "expect_theorems": ["C03_channels_match_source", "C03_attr", "C03_attr_get", "C03_text", "C03_cols", "C03_shared_formula", "C03_value_number", "C03_value_error",
                         "C03_string_item", "C03_cell_number", "C03_cell_shared_string", "C03_cell_str", "C03_cell_bool", "C03_cell_error", "C03_cell_inline_string",
                         "C03_cell", "C03_cell_kind", "C03_positions",
-                        "C03_attr_literal_whitespace", "C03_text_literal_cr", "C03_cell_edge_blanks_fails", "C03_cell_t_and_runs_fails"],
+                        "C03_attr_literal_whitespace", "C03_text_literal_cr", "C03_cell_edge_blanks_fails", "C03_cell_t_and_runs_fails",
+                        "C03_sheet", "C03_sheet_decoder", "C03_sheet_is_decodeSheet", "C03_sheet_code", "C03_shared_formula_tokens",
+                        "C03_sst", "C03_sst_is_decoder", "C03_sst_cell", "C03_rels", "C03_hyperlinks", "C03_hyperlinks_is_decodeSheet",
+                        "C03_hyperlink_location_with_rid_fails", "C03_merges_partial", "C03_merges_is_decodeSheet", "C03_sheet_list",
+                        "C03_defined_names_partial"],
     "rule": "case = one xlsx file: `c03 reset file <corpus file>`, `c03 reset gen <seed>` (grammar derivation from the seed; productions listed at the top of harness/src/c03.rs and "
             "counted as prod.* in the distribution: cell encodings t=absent/n/s/str/inlineStr/b/e with and without formula, number forms, shared/inline strings plain/rich/phonetic/"
             "xml:space/looks-typed, entities and character references in text and attributes, shared-formula blocks with the master anywhere in its ref and children right/below/"
             "left-below, array formulas, optional r/spans/s, row attributes, col spans incl. max=16384, 1-4 sheets with escaped names, hidden sheets, arbitrary part names and "
             "relationship ids, defined names global/local/constant/multi-area, hyperlinks external/location/both/tooltip/display, one table, a styles part with 1-7 xfs), "
-            "`c03 reset edge <k>` (9 hand-written boundary packages: shared-formula blocks at the grid edge, start/end-tag forms, CDATA / comments, literal white space in attributes, t=\"b\" with true / false, a string item with t and runs, an empty <si/>, blanks at the ends of texts). Every part is one request, the final request compares the views. Only the case headers of a replay are acted on. "
+            "`c03 reset edge <k>` (13 hand-written boundary packages: edge 12 = the non-vacuity example of C03_sheet (two shared groups, children right / below-left, a row and cells without r, inline string, <si/>), edge 13 = the witness of C03_hyperlink_location_with_rid_fails next to valid links and merges; shared-formula blocks at the grid edge, start/end-tag forms, CDATA / comments, literal white space in attributes, t=\"b\" with true / false, a string item with t and runs, an empty <si/>, blanks at the ends of texts). Every part is one request, `c03 decode` compares the library's view with the decoder's, `c03 model` the library's with the reader model's. Only the case headers of a replay are acted on. "
             "non-trivial = every part / decode request; distinct = distinct request line",
     "trusted_base": TB_COMMON + ["independent decoder Umya/Spec/XmlLex.lean + Sml.lean + SharedFormula.lean + Double.lean (executed, not verified against the standards' text)",
                                  "zip crate", "harness generator and view (harness/src/c03.rs)", "difference classifier (tools/props.d/C03.py)"],
@@ -174,17 +203,30 @@ PROP = {
                     "C03_cell compares the kind through shownKind (text kind with an empty text = no value); C03_cell_kind: plain equality whenever the value is not empty",
                     "C03_positions, hypothesis validPositions: a row's r an unsigned decimal that fits u32, a cell's r 1-3 upper-case letters + decimal row that fits u32 (the library's regex; lower-case or $ forms are outside), "
                     "the positions the spec assigns inside the grid (rows <= 1048576, columns <= 16384; beyond ZZZ the library panics); nothing is assumed about order",
+                    "C03_sheet, hypothesis validSheetData: every c a validCell, validPositions, groupsOk (shared groups well-formed in document order), mastersCarryRef; "
+                    "C03_sst: every si a validRst; C03_hyperlinks: validHyperlinks (an r:id link's relationship exists and the link has no location - known finding C03-hyperlink-location-with-rid, refuted by "
+                    "C03_hyperlink_location_with_rid_fails, edge 13 - ; a link without r:id has location) and RelsAgree (from C03_rels: every Relationship carries Id, Type, Target); "
+                    "C03_sheet_list: name, sheetId, r:id present; C03_defined_names_partial: localSheetId fits u32, content without blanks at its ends (trim_text)",
                     "the model reads the element tree: `<v/>` `<t/>` `<is/>` `<r/>` (Empty events, ignored by the library) are not distinguished from the start/end-tag forms; elements are matched by local name "
                     "(the library matches unprefixed names only); character data directly inside <c> is not modelled; usize is 64 bits",
                     "Rust's f64 parser is correctly rounded (the spec side computes the nearest binary64 exactly with integer arithmetic)"],
-    "partial_clauses": ["whole-file agreement is validated per file (translation validation), not proved",
+    "partial_clauses": ["whole-file agreement is validated per file (translation validation), not proved: the theorems now reach one <sheetData>, the <sst>, the hyperlink / merge / sheet / definedName loops, each against the "
+                        "corresponding expression of Spec.decodeSheet / decode; NOT composed into one statement about a package (zip access, part lookup by path, join_paths vs resolveTarget, styles) ",
+                        "C03_sheet holds for every translator T and is instantiated with the spec's and with the code's; that the two translators print the same TEXT for a master formula is NOT proved (false in general: "
+                        "known finding C03-shared-formula-blanks-dropped); C03_shared_formula_tokens covers token lists, the tokenizer-vs-scanner step is per file",
+                        "validSheetData requires well-formed shared groups (groupsOk: the first f t=shared of an si carries the text, later ones none): a child that precedes its master or carries its own text is outside "
+                        "(the code then anchors the group at the first cell seen / overwrites the child's text with the translated master; not replayed as a boundary package)",
+                        "C03_merges_partial / C03_defined_names_partial: the loops and attribute reading are modelled; add_range/get_range and set_address/get_address (text -> objects -> text) are not; "
+                        "the re-homing of defined names to sheets is in the driver's model only",
+                        "C03_sheet_list does not cover the path normalisation (join_paths vs the decoder's resolveTarget); cells.set_fast (last write wins per position) is in the driver (sortedCells), not in the theorem: "
+                        "C03_sheet compares the cells in document order",
                         "C03_cell / C03_positions are theorems about the hand-written model of Cell::set_attributes / Row::set_attributes; the model is tied to the code through the per-file runs only "
                         "(model vs spec on every cell and sheetData, spec vs implementation by the oracle), there is no mechanical extraction of the model from the Rust",
                         "two conjuncts of validCell exclude schema-valid cells on which the code deviates from the spec (proved witnesses, replayed as boundary packages, known findings): a string item with "
                         "both a plain t and runs (C03_cell_t_and_runs_fails, edge 7) and an inline <t> with blanks at its ends but no xml:space (C03_cell_edge_blanks_fails, edge 9)",
-                        "C03_shared_formula is reference-level: that tokenizer and spec scanner cut a formula into the same references, and the master/child bookkeeping (first f of an si is the master), are validated by the oracle only",
+                        "C03_shared_formula is reference-level, C03_shared_formula_tokens token-list-level: that tokenizer and spec scanner cut a formula text into the same references is validated by the oracle only (the master/child bookkeeping is now C03_sheet)",
                         "style resolution (cellXfs -> numFmt / font / fill) has no model and no theorem: oracle only, three facts per cell (number format, bold, fill)",
                         "charts, drawings, comments, conditional formats, data validations, pivot tables, theme: not compared",
                         "the two corpus files > 1 MB only in the thorough tier"],
-    "technique": "independent XML/OPC/SpreadsheetML decoder executed in Lean on every file (translation validation) + Lean theorems on unescaping, cell elements of every type (model reader = spec decoder), positions of rows / cells without r, shared-formula reference translation and col spans",
+    "technique": "independent XML/OPC/SpreadsheetML decoder executed in Lean on every file (translation validation) + Lean theorems on unescaping, cell elements of every type, positions, whole sheetData with shared-formula groups, shared-strings table, hyperlinks / relationships, sheet list (model reader = spec decoder) + the reader model run against the implementation on every file",
 }
